@@ -9,7 +9,7 @@ import common as C
 
 PROP = "C14"
 LEAN_MODULES = ["AcryoVerif.Props.C14"]
-LEAN_SUPPORT = ["AcryoVerif.Lemmas.PyLemmas", "AcryoVerif.Props.C02"]
+LEAN_SUPPORT = ["AcryoVerif.Lemmas.PyLemmas", "AcryoVerif.Props.C02", "AcryoVerif.Model.Sim"]
 KERNELS = ["simPrep", "simMatrixStructure", "simAccumulates", "sim2dProjectsEveryMolecule", "sim2dZSize",
            "simClipUsesSlicePad", "makeSliceAndPad"]
 TRUSTED = [
@@ -27,12 +27,18 @@ EXPLANATION = (
     "(integer for odd, half-integer for even sizes) give output_center = center, i.e. an exact paste at "
     "pos - (n-1)/2; clipped source and destination slices have equal length inside the volume, "
     "non-overlapping fragments are skipped; the sum is independent of the order and partition of "
-    "fragments; simulate_2d's volume is tall enough and projects every molecule. K2: _prep_iterators and "
-    "its matrices vs the generated kernel. Oracle: exact pastes, order independence, clipping, loader round "
+    "fragments; simulate_2d's volume is tall enough and projects every molecule. Array level (refinement): "
+    "Model.simulate1d follows the code (regenerated window and clipping kernels, whole-voxel translation, skip "
+    "on out-of-bound, += per molecule) and for every list of grid-coincident molecules never fails and "
+    "yields at voxel j the sum of the template voxels the poses put there (simulate1d_spec); order/partition "
+    "independence and the exact paste are corollaries on arrays. K2: _prep_iterators and "
+    "its matrices vs the generated kernel; the real simulate() along one axis vs Model.simulate1d. Oracle: exact pastes, order independence, clipping, loader round "
     "trip, 2-D = z-projection, off-grid poses with smooth templates.")
 SAMPLE_OBLIGATIONS = [
     {"theorem": "C14.centre_at_position", "statement": "starts + output_center = pos/scale for every n, pos, scale"},
     {"theorem": "C14.exact_paste", "statement": "grid-coincident pose -> output_center = center and starts = pos - (n-1)/2"},
+    {"theorem": "C14.simulate1d_spec", "statement": "for all grid-coincident molecule lists: no error, length N, voxel j = sum of posed template voxels"},
+    {"theorem": "C14.simulate1d_order_free", "statement": "Perm m1 m2 -> simulate1d m1 = simulate1d m2 (arrays)"},
 ]
 
 
@@ -66,6 +72,43 @@ def correspondence(rng, thorough):
             stats["cases"] += 1
             stats["even"] += n[ax] % 2 == 0
             stats["negative"] += p[ax] < 0
+    # array level: the real simulator along one axis against Model.simulate1d (grid-coincident poses: whole
+    # templates inside, straddling either face, outside; overlapping molecules; several components)
+    from acryo import TomogramSimulator
+    stats.update({"sim1d": 0, "sim1d_straddle": 0, "sim1d_outside": 0, "sim1d_left_of_origin": 0})
+    for it in range(90 if thorough else 30):
+        ax = it % 3
+        scale = Fraction([1, 1, 2, 13][it % 4], [1, 2, 1, 8][it % 4])
+        N = int(rng.integers(1, 14))
+        nmol = int(rng.integers(1, 5))
+        sim = TomogramSimulator(order=int(it % 2), scale=float(scale))
+        toks = []
+        for m in range(nmol):
+            n = int(rng.integers(1, 7))
+            k = int(rng.integers(-n - 2, N + 3))
+            p = (Fraction(k) + Fraction(n - 1, 2)) * scale
+            vals = [int(v) for v in rng.integers(1, 30, size=n)]
+            shp = [1, 1, 1]
+            shp[ax] = n
+            pos = [0.0, 0.0, 0.0]
+            pos[ax] = float(p)
+            sim.add_molecules(Molecules(np.array([pos])), np.array(vals, dtype=np.float32).reshape(shp), name=f"c{m}")
+            toks += [C.rat_str(p), str(n)] + [str(v) for v in vals]
+            stats["sim1d_straddle"] += (k < 0 < k + n) or (k < N < k + n)
+            stats["sim1d_outside"] += (k + n <= 0) or (k >= N)
+            stats["sim1d_left_of_origin"] += p < 0
+        vol = [1, 1, 1]
+        vol[ax] = N
+        import dask
+        try:
+            with dask.config.set(scheduler="synchronous"):
+                out = np.asarray(sim.simulate(tuple(vol))).reshape(-1)
+            res = " ".join(C.rat_str(float(v)) for v in out)
+        except Exception as e:  # noqa: BLE001
+            res = "error " + C.EXC_KIND.get(type(e).__name__, type(e).__name__)
+        lines.append(f"m:sim1d {C.rat_str(scale)} {N} {nmol} " + " ".join(toks))
+        impl.append(res)
+        stats["sim1d"] += 1
     return lines, impl, stats
 
 
